@@ -586,7 +586,9 @@ func init() {
 			}
 			if want := wantErr + "/" + ref; got != want && !(op == "CtxCancel" && ref == "Initiated") {
 				e.notes = append(e.notes, fmt.Sprintf("LIFECYCLE: after %v: %s returned %s, the documented machine gives %s", seq, op, got, want))
-				break
+				// keep going from what the worker actually reports, so that later effects (jobs starting on a
+				// worker that should be paused ...) are seen by the other monitors
+				ref = strings.SplitN(got, "/", 2)[1]
 			}
 		}
 		e.p("ctx", map[bool]int{false: 0, true: 1}[e.withCtx])
